@@ -37,3 +37,9 @@ Example C19_example :
    (0%nat, Ev 26 [0;7]%Z []); (1%nat, Ev 26 [0;7]%Z []);
    (0%nat, Ev 6 [] []); (1%nat, Ev 6 [] [])].
 Proof. vm_compute. reflexivity. Qed.
+
+(* children may themselves be multi reporters: for every tree of multi reporters, a call reaches
+   every leaf exactly once, in left-to-right order - the calls of one flat multi reporter *)
+Theorem C19_nested_is_flat : forall t i c, deliver t i c = tag_from i (repeat c (leaves t)).
+Proof. exact nested_is_flat. Qed.
+Print Assumptions C19_nested_is_flat.
